@@ -766,6 +766,13 @@ func (w *responseWriter) buildAResponseAsBasis(orig, aResp *dns.Msg) *dns.Msg {
 	}
 	out.Extra = appendOPTFrom(orig, copyExtraNoOPT(aResp.Extra))
 
+	// The reply is composed from two answers: the AAAA reply that had no
+	// usable address gated it, the A reply supplies its records. The relayed
+	// records carry what is left of the A reply only; the cache folded the
+	// expiry of both into the request tree's bound, and nothing relayed may
+	// outlive it (as for the synthesised records in synthesise).
+	w.capRelayedTTLs(out.Answer, out.Ns, out.Extra)
+
 	// AD on the A response was derived against an A question, not
 	// the AAAA question we're answering. Clear it; if the original
 	// AAAA reply had been validated, attach EDE 4 so the client
@@ -775,6 +782,34 @@ func (w *responseWriter) buildAResponseAsBasis(orig, aResp *dns.Msg) *dns.Msg {
 		dnsutil.SetEDE(out, dns.ExtendedErrorCodeForgedAnswer, "DNS64 used A response as basis")
 	}
 	return out
+}
+
+// capRelayedTTLs lowers the TTL of every relayed record that would outlive
+// the request tree's lifetime bound. The sections are the reply's own slices;
+// a record that has to change is copied first because the RR values are
+// shared with the sub-query's answer.
+func (w *responseWriter) capRelayedTTLs(sections ...[]dns.RR) {
+	cut := middleware.ResponseMetaFrom(w.ctx).CutUntil()
+	if cut.IsZero() {
+		return
+	}
+	left := time.Until(cut)
+	if left < 0 {
+		left = 0
+	}
+	secs := uint64(left / time.Second)
+	for _, sec := range sections {
+		for i, rr := range sec {
+			if _, ok := rr.(*dns.OPT); ok {
+				continue
+			}
+			if uint64(rr.Header().Ttl) > secs {
+				c := dns.Copy(rr)
+				c.Header().Ttl = uint32(secs) //nolint:gosec // below the TTL it replaces
+				sec[i] = c
+			}
+		}
+	}
 }
 
 // copyExtraNoOPT returns a copy of rrs with any OPT records
